@@ -326,7 +326,12 @@ func ShieldProfile(seed int64, out *Recorder, nOps int) *Chain {
 			if dep < 0 {
 				dep = 0
 			}
-			content := shieldtypes.NewShieldClaimProposal(poolID, coin(loss), purchaseID, "ev", "desc", contentProposer)
+			lossCoins := coin(loss)
+			if rng.Intn(10) == 0 { // a loss that is not a valid amount
+				loss = -loss
+				lossCoins = sdk.Coins{sdk.Coin{Denom: Bond, Amount: sdk.NewInt(loss)}}
+			}
+			content := shieldtypes.NewShieldClaimProposal(poolID, lossCoins, purchaseID, "ev", "desc", contentProposer)
 			c.SubmitProposal(signer, content, D{"kind": "claim", "pool": poolID, "purchase": purchaseID, "loss": loss, "contentProposer": Hex(contentProposer)}, coin(dep))
 		case r < 96: // votes
 			props := c.App.VerifGovKeeper().GetProposals(ctx)
